@@ -214,6 +214,7 @@ def build_machine_set(wsname, structs, profile, enum_adapters_by_shard=None, enu
     for i, sh in enumerate(shards):
         srcs.append(rustgen.shard_source(sh))
     spec = {"machines": [rustgen.spec_struct(s) for s in structs], "enums": extra_enum_specs or []}
+    cross_check(structs, spec)
     ws = workspace(wsname, srcs, spec)
     ok, dt, diag = cargo_build(ws, profile)
     return ws, ok, dt, diag
@@ -242,6 +243,17 @@ def build_mixed_set(wsname, structs, eds, profile, enum_ctab=False):
         for i in range(0, len(eds), size):
             srcs.append(rustgen.enum_shard_source(eds[i:i + size], ctab=enum_ctab))
     spec = {"machines": [rustgen.spec_struct(s) for s in structs], "enums": [rustgen.enum_spec(e) for e in eds]}
+    cross_check(structs, spec)
     ws = workspace(wsname, srcs, spec)
     ok, dt, diag = cargo_build(ws, profile)
     return ws, ok, dt, diag
+
+
+def cross_check(structs, spec):
+    """the declaration text shown to the macro is re-parsed by an independent parser and must describe the
+    same layout as the spec handed to the reference register"""
+    from . import reparse
+    for s, ms in zip(structs, spec["machines"]):
+        errs = reparse.check_struct(rustgen.struct_decl(s), ms)
+        if errs:
+            raise MachineryError(f"generator: declaration text and layout spec disagree for {s.name}: {errs[:3]}")
